@@ -6,7 +6,10 @@ Driver commands for the `DynamicEnumMeta` / `enum_bitmask` model.
   dynenum <defs> <ops>            defs = `NAME=value,...` (class body order) or `-`
                                    ops  = `;`-separated: `c<int>` lenient call, `s<int>` strict call,
                                           `n<name>` strict call by name, `N<name>` lenient call by name,
-                                          `g<name>` cls[name], `i` list(cls), `l` len(cls); `-` = no ops
+                                          `g<name>` cls[name], `i` list(cls), `l` len(cls), `r` list(reversed(cls)),
+                                          `j` len(cls) and len(list(cls)) as `<n>/<n>`, `w<int>` `<int> in cls`,
+                                          `W<name>` `cls[name] in cls`, `H<int>` `cls(<int>, lenient) in cls`
+                                          (answers `T` / `F`); `-` = no ops
                                    answer: one token per op joined by `;` - a member is `NAME=value:U|R`
                                           (U = is_unrecognized()), a list is `NAME=value:R,...` (`-` if empty),
                                           an exception is `!ValueError` / `!KeyError` / `!TypeError`
@@ -37,6 +40,8 @@ def dynShowRes : Except EnumErr EnumMember → String
   | .ok m => dynShowMember m
   | .error e => dynShowErr e
 
+def dynShowBool (b : Bool) : String := if b then "T" else "F"
+
 /-- `NAME=value` -/
 def dynParsePair (s : String) : Option (Name × Int) :=
   match s.splitOn "=" with
@@ -55,6 +60,17 @@ def runEnumOp (e : DynEnum) (op : String) : Option (String × DynEnum) :=
   | 'g' :: r => some (dynShowRes (e.getItem (r.map Char.toNat)), e)
   | ['i'] => some ((match e.iter with | .ok ms => dynShowMembers ms | .error err => dynShowErr err), e)
   | ['l'] => some ((match e.len with | .ok n => toString n | .error err => dynShowErr err), e)
+  | ['r'] => some ((match e.reversedIter with | .ok ms => dynShowMembers ms | .error err => dynShowErr err), e)
+  | ['j'] => some ((match e.len, e.iter with
+      | .ok n, .ok ms => s!"{n}/{ms.length}"
+      | .error err, _ => dynShowErr err
+      | _, .error err => dynShowErr err), e)
+  | 'w' :: r => (String.ofList r).toInt?.map fun v => (dynShowBool (e.containsValue v), e)
+  | 'W' :: r => some ((match e.getItem (r.map Char.toNat) with
+      | .ok m => dynShowBool (e.containsMember m) | .error err => dynShowErr err), e)
+  | 'H' :: r => (String.ofList r).toInt?.map fun v =>
+      let x := e.call v false
+      ((match x.1 with | .ok m => dynShowBool (x.2.containsMember m) | .error err => dynShowErr err), x.2)
   | _ => none
 
 def runEnumOps (e : DynEnum) (ops : List String) (acc : List String) : Option (List String) :=
